@@ -103,7 +103,7 @@ class C09(Check):
 
     def strata(self, tier):
         return [('S-alldelayed', 4), ('S-mixed', 3), ('S-heun', 1), ('S-conn-single', 2), ('S-conn-multi', 1),
-                ('S-step', 2), ('S-hub', 1), ('S-matrix', 1), ('S-fortran', 0.25)]      # a few f2py builds per quick run
+                ('S-step', 2), ('S-hub', 1), ('S-matrix', 1), ('S-fortran', 0.25), ('S-big', 1)]      # a few f2py builds per quick run
 
     def generate(self, rng, stratum, tier):
         dt = rng.choice([1e-3, 0.01, 0.05])
@@ -135,6 +135,17 @@ class C09(Check):
                               delays=delays, hier=rng.random() < 0.2,
                               # multi-operator nodes: the delayed source variable is also read by a second operator of its node
                               readouts=(0.5, 0.0, 0.5) if rng.random() < 0.3 else None)
+        if stratum == 'S-big':
+            # sizes that toy models never reach: 9-15 nodes, dozens of edges, delays of up to 70 steps, runs longer than them
+            def long_delays(r):
+                if r.random() < 0.6:
+                    n = r.choice([r.randint(2, 12), r.randint(40, 70)])
+                    return {'delay': (n + r.uniform(-0.45, 0.45)) * dt, 'dsteps': n}
+                return {}
+            spec = models.gen_net(rng, n_nodes=rng.randint(9, 15), libs=rng.choice([('lin', 'leak', 'integ', 'osc', 'linl'), ('lin',)]),
+                                  max_edges=rng.randint(15, 40), delays=long_delays)
+            cfg['steps'] = cfg['m'] * rng.randint(80 // cfg['m'] + 1, 140 // cfg['m'] + 1)
+            cfg['prelude'] = None
         if stratum in ('S-alldelayed', 'S-mixed') and rng.random() < 0.12:
             # feature interaction: complex-valued state variables on delayed edges (ring buffers must carry complex values)
             spec = models.gen_net(rng, n_nodes=rng.randint(2, 5), libs=('cz',), max_edges=6, delays=delays, build='python')
